@@ -705,8 +705,9 @@ def c42_run(prop, tier, seed):
     import time
     wd = vlib.workdir(prop)
     known = vlib.load_known()
-    r1 = vlib.run_tlc("StdTimer", "MC_StdTimer.cfg", wd, workers=6, timeout=1200, capture_edges=False)
-    mc = [{"module": "StdTimer", "cfg": "MC_StdTimer.cfg", "distinct_states": r1["stats"]["distinct"], "generated": r1["stats"]["generated"],
+    cfg = "MC_StdTimer.cfg" if tier == "quick" else "MC_StdTimer_full.cfg"
+    r1 = vlib.run_tlc("StdTimer", cfg, wd, workers=8, timeout=2400, capture_edges=False)
+    mc = [{"module": "StdTimer", "cfg": cfg, "distinct_states": r1["stats"]["distinct"], "generated": r1["stats"]["generated"],
            "action_coverage": r1["stats"]["coverage"], "cmd": r1["stats"]["cmd"]}]
     if tier == "thorough":
         try:
